@@ -280,7 +280,11 @@ fn jobs_for(prop: &str, rng: &mut Rng, case: &Case, input: &[u8], sp: &SpecRun, 
                 let l = if b == Backend::Inplace { 0 } else { lv };
                 for &k in &ks {
                     for err in [false, true] {
-                        let f = Io { input: Some(input.to_vec()), has_output: true, fault: Some(Fault { at: k, err }) };
+                        // every error kind must stop the program, also the ones std helpers retry on
+                        // (Interrupted) and also when a later attempt would succeed
+                        let kind = if err && rng.chance(2, 3) { rng.below(sys::FAULT_KINDS.len() as u64) as u8 } else { 0 };
+                        let once = rng.chance(1, 3);
+                        let f = Io { input: Some(input.to_vec()), has_output: true, fault: Some(Fault { at: k, err, kind, once }) };
                         push(b, l, Mode::Exec, &f);
                     }
                 }
@@ -293,7 +297,7 @@ fn jobs_for(prop: &str, rng: &mut Rng, case: &Case, input: &[u8], sp: &SpecRun, 
                 }
                 // failure under limited execution too
                 if let Some(&k) = ks.first() {
-                    let f = Io { input: Some(input.to_vec()), has_output: true, fault: Some(Fault { at: k, err: true }) };
+                    let f = Io { input: Some(input.to_vec()), has_output: true, fault: Some(Fault { at: k, err: true, kind: 1, once: true }) };
                     push(b, l, Mode::Limited(1 << 40), &f);
                 }
             }
@@ -522,7 +526,7 @@ pub fn one(args: &Args) -> i32 {
         },
         _ => Mode::Exec,
     };
-    let fault = args.get("fault-at").map(|k| Fault { at: k.parse().unwrap(), err: args.get("fault-err").map(|s| s == "true" || s == "1").unwrap_or(false) });
+    let fault = args.get("fault-at").map(|k| Fault { at: k.parse().unwrap(), err: args.get("fault-err").map(|s| s == "true" || s == "1").unwrap_or(false), kind: args.get_u64("fault-kind", 0) as u8, once: args.get_u64("fault-once", 0) == 1 });
     let io = Io {
         input: if args.get("no-input").is_some() { None } else { Some(input.clone()) },
         has_output: args.get("no-output").is_none(),
@@ -768,7 +772,7 @@ pub fn shrink_cmd(args: &Args) -> i32 {
         "unsafe" => Mode::Unsafe { lo: 0, hi: 0 },
         _ => Mode::Exec,
     };
-    let fault = args.get("fault-at").map(|k| Fault { at: k.parse().unwrap(), err: args.get("fault-err").map(|s| s == "true" || s == "1").unwrap_or(false) });
+    let fault = args.get("fault-at").map(|k| Fault { at: k.parse().unwrap(), err: args.get("fault-err").map(|s| s == "true" || s == "1").unwrap_or(false), kind: args.get_u64("fault-kind", 0) as u8, once: args.get_u64("fault-once", 0) == 1 });
     let io = Io { input: if args.get("no-input").is_some() { None } else { Some(input.clone()) }, has_output: args.get("no-output").is_none(), fault };
     let job = Job { cfg: Cfg { backend, bits, level, mode }, io };
     let (c, i) = shrink(&code, &input, &job, args.get_u64("alloc-mode", 0) as u32);
